@@ -5,8 +5,11 @@ import (
 	"encoding/binary"
 	"fmt"
 	"os"
+	"strings"
+	"sync"
 	"testing"
 	"testing/synctest"
+	"time"
 
 	"pgregory.net/rapid"
 
@@ -252,6 +255,66 @@ func TestC03(t *testing.T) {
 			}
 		}
 		st.SetExtra("full_range_positions_compared", n)
+	})
+
+	// several callers at once (poller, API handlers, several nodes in one process expand proposals concurrently):
+	// every participant must still expand the same proposal into the same ordered list
+	t.Run("concurrent-expansion", func(t *testing.T) {
+		if replaying() {
+			return
+		}
+		si, _ := shard()
+		const workers = 8
+		rounds := pick(60, 1500)
+		n := len(bakedList())
+		var mu sync.Mutex
+		var bad []string
+		var wg sync.WaitGroup
+		for w := 0; w < workers; w++ {
+			wg.Add(1)
+			go func(w int) {
+				defer wg.Done()
+				defer func() {
+					if r := recover(); r != nil {
+						mu.Lock()
+						bad = append(bad, fmt.Sprintf("worker %d panicked: %v", w, r))
+						mu.Unlock()
+					}
+				}()
+				for k := 0; k < rounds; k++ {
+					start := (k*7919 + w*104729 + si*613) % (n - 40)
+					if k%3 == 0 {
+						start = (k * 31) % (n - 40) // ranges shared by all workers
+					}
+					tasks := []sTask{{ID: fmt.Sprintf("p%d", k), File: "f", Payload: []byte(fmt.Sprintf("payload %d/%d", w, k))}, {ID: fmt.Sprintf("r%d", k), Start: start, End: start + 1 + (k+w)%37}}
+					if k%2 == 1 {
+						tasks[0], tasks[1] = tasks[1], tasks[0]
+					}
+					msgs, err := requests.TasksToMessages(sBatch{Tasks: tasks}.request("b", time.Time{}).SigningTasks)
+					ref := refExpand(tasks)
+					ok := err == nil && len(msgs) == len(ref)
+					for i := 0; ok && i < len(ref); i++ {
+						ok = msgs[i].MessageID == ref[i].ID && bytes.Equal(msgs[i].Payload, ref[i].Payload)
+					}
+					if !ok {
+						mu.Lock()
+						if len(bad) < 4 {
+							bad = append(bad, fmt.Sprintf("worker %d, call %d, tasks %v: %d messages, err %v; the reference expansion has %d", w, k, tasks, len(msgs), err, len(ref)))
+						}
+						mu.Unlock()
+						return
+					}
+				}
+			}(w)
+		}
+		wg.Wait()
+		st.EvalN(workers * rounds)
+		if len(bad) > 0 {
+			report(t, st, "concurrent-expansion", violf("expansion-differs-under-concurrency", "%d goroutines expanding proposals at the same time: %s", workers, strings.Join(bad, "; ")), map[string]any{"workers": workers})
+			return
+		}
+		st.Class("concurrent-expansion")
+		st.NonTrivial(fmt.Sprintf("conc/%d/%d", rounds, si))
 	})
 
 	rapidProp(t, st, "proposal", perShard(pick(320, 12000)), 1, c03Gen, func(p sPlan) *viol { return c03Run(t, st, p) })
